@@ -214,7 +214,9 @@ Inductive beh :=
 | BOkBad      (* completes without error but with a result that cannot be serialised, returns *)
 | BDefer      (* keeps the completion function for later, returns without completing *)
 | BOkDefer    (* completes without error, keeps the completion function as well, returns *)
-| BDeferPanic.  (* keeps the completion function, then panics *)
+| BDeferPanic   (* keeps the completion function, then panics *)
+| BPanicWith (v : Z).  (* panics before completing, with the v-th kind of panic value (a string, an error,
+                         a runtime error, an error whose Error() itself panics, nil, ...) *)
 
 Inductive ser := SJson | SProto | SNil.
 (* serializer.Unmarshal of THIS call's payload into a FRESH value of a type: the token of the value
@@ -255,6 +257,7 @@ Definition req_script (b : beh) : list (bool * bool) * bool :=
   | BDefer => ([], false)
   | BOkDefer => ([(false, false)], false)
   | BDeferPanic => ([], true)
+  | BPanicWith _ => ([], true)
   end.
 
 (* does the handler keep the completion function it was given (to run it after it returned)?
@@ -268,7 +271,7 @@ Definition keeps (b : beh) : option bool :=
   end.
 
 Definition notify_panics (b : beh) : bool :=
-  match b with BPanic | BOkPanic => true | _ => false end.
+  match b with BPanic | BOkPanic | BDeferPanic | BPanicWith _ => true | _ => false end.
 
 Definition seen_of (a : argv) : option Z := match a with ANil => None | AVal _ _ v => Some v end.
 
